@@ -382,6 +382,69 @@ def check_group(rec, path, regs, with_get=False, reqs=REQS):
         cleanup(attrs)
 
 
+class VtPickyGroup(PluginGroup):
+    """like VtGroup, but its group-specific check refuses plugin classes marked `refuse_me`"""
+
+    class Plugin:
+        name = "vtgroup"
+        version = (0, 1, 0)
+        plugin_class = object
+
+    def check_plugin(self, ep_name, plugin):
+        if getattr(plugin, "refuse_me", False):
+            raise TypeError(f"{ep_name}: refused by the group")
+
+
+def check_group_with_refusal(rec, regs, bad_pos, bad_v):
+    """register_in_group of the versions `regs` (one name, in that order) with one REFUSED registration of version `bad_v`
+    (not among regs) before position `bad_pos`. Whatever happens to the refused one: every accepted version stays listed,
+    in ascending order, and a request resolves to the newest listed version that supports it."""
+    regs = [tuple(v) for v in regs]
+    case = {"part": "group_refusal", "regs": [list(v) for v in regs], "bad_pos": bad_pos, "bad_v": list(bad_v)}
+    attrs = []
+    g = VtPickyGroup({})
+    try:
+        for idx in range(len(regs) + 1):
+            if idx == bad_pos:
+                attr, cls = mk_plugin_class(NAME_A, bad_v)
+                attrs.append(attr)
+                cls.refuse_me = True
+                try:
+                    putil.register_in_group(g, cls, violently=True)
+                    rec.violated("c16:group:register:refused-plugin-accepted", f"a plugin the group's check refuses was registered without an error ({bad_v})", case, [F_REG])
+                except Exception:  # noqa  (expected)
+                    rec.check(True, "", "")
+            if idx < len(regs):
+                attr, cls = mk_plugin_class(NAME_A, regs[idx])
+                attrs.append(attr)
+                try:
+                    putil.register_in_group(g, cls, violently=True)
+                except Exception as e:  # noqa
+                    rec.violated(f"c16:group:register:registration-raises:{type(e).__name__}", f"registering {regs[idx]} (after {regs[:idx]}, refused {bad_v} before position {bad_pos}) raised {type(e).__name__}: {e}", case, [F_REG])
+                    return
+        G = "vtgroup"
+        got = [rk(r) for r in g.versions(NAME_A)]
+        accepted = [(G, NAME_A, v) for v in sorted(regs)]
+        judged = [x for x in got if x[2] != tuple(bad_v)]  # whether the refused version stays listed is not claimed
+        if judged != accepted or got != sorted(got):
+            kind = "registered-version-missing" if set(accepted) - set(got) else "not-ascending" if got != sorted(got) else "extra-or-duplicate"
+            rec.violated(f"c16:group:register:versions:{kind}", f"versions({NAME_A!r}) after registering {regs} with a refused registration of {tuple(bad_v)} before position {bad_pos}: accepted {accepted}, listed {got}", case, [F_REG, F_VER])
+        else:
+            rec.check(True, "", "")
+        for v in regs:
+            rec.check((NAME_A, v) in g, "c16:group:register:versions:registered-version-missing", f"(({NAME_A!r}, {v}) in group) is False although it was registered (refused {tuple(bad_v)} before position {bad_pos})", case, [F_REG, "plugin/interface.py:PluginGroup.__contains__"])
+        for q in REQS_SMALL:
+            sup = [x for x in got if x[2][0] == q[0] and x[2][1] >= q[1]]
+            r = g.resolve(NAME_A, q)
+            got_r = rk(r) if r is not None else None
+            exp_r = sup[-1] if sup else None
+            rec.check(got_r == exp_r, "c16:group:register:resolve:" + ("none-although-compatible-registered" if got_r is None else "spurious" if exp_r is None else "not-newest"), f"resolve({NAME_A!r}, {q}) expected {exp_r}, got {got_r} (listed {got})", case, [F_REG, F_RES])
+    except Exception as e:  # noqa
+        rec.violated(f"c16:group:register:query-raises:{type(e).__name__}", f"query on group with {regs} and refused {bad_v} raised {type(e).__name__}: {e}", case, [F_REG])
+    finally:
+        cleanup(attrs)
+
+
 class _PlainMixin:
     pass
 
@@ -492,6 +555,17 @@ def part_group(rec, tier, seed, t_end):
                     check_group(rec, "add_ep", regs, with_get=False, reqs=REQS_SMALL)
                     rec.case(("group", "add_ep", tuple(regs)))
                     n["interleaved"] += 1
+    # (2b) one registration refused by the group's own check at every position of every short order
+    n_ref = 0
+    for o in orders:
+        if len(o) > 3:
+            continue
+        for bad_v in [v for v in POOL5 if v not in o]:
+            for bad_pos in range(len(o) + 1):
+                check_group_with_refusal(rec, o, bad_pos, bad_v)
+                rec.case(("group_refusal", tuple(o), bad_pos, bad_v), nontrivial=True)
+                n_ref += 1
+    n["refusal"] = n_ref
     # (3) seeded random deeper: three names, up to 8 registrations, random path
     R = rng(seed, "c16-group")
     names3 = [NAME_A, NAME_B, "vt.a0_b-c"]
@@ -508,7 +582,7 @@ def part_group(rec, tier, seed, t_end):
         rec.case(("group", path, tuple(regs)))
         n_rand += 1
     return (f"group: all permutations of all subsets (1..{maxk}) of {POOL5} for one name x paths ctor/_add_ep/register_in_group/mixed/mixed2 = {n['single']} groups "
-            f"({n['get']} with get()/subclass checks); {n['interleaved']} groups with a second name interleaved; {n_rand} seeded random groups (3 names, <= 8 registrations); "
+            f"({n['get']} with get()/subclass checks); {n['interleaved']} groups with a second name interleaved; {n['refusal']} histories (<= 3 accepted versions) with one registration refused by the group check at every position; {n_rand} seeded random groups (3 names, <= 8 registrations); "
             f"requests {len(REQS)} versions per name; {'complete' if done else 'budget stop'}"), done
 
 
@@ -781,6 +855,8 @@ def replay(case: dict):
         check_sorted(rec, [tuple(t[:2]) + (tuple(t[2]),) for t in case["list"]])
     elif part == "group":
         check_group(rec, case["path"], [(n, tuple(v)) for n, v in case["regs"]], with_get=case.get("with_get", False))
+    elif part == "group_refusal":
+        check_group_with_refusal(rec, [tuple(v) for v in case["regs"]], case["bad_pos"], tuple(case["bad_v"]))
     elif part == "epname":
         check_name(rec, case["name"], [tuple(case["version"])])
     elif part == "add_ep_reject":
